@@ -64,6 +64,12 @@ def ev(e, leaf):
             return int(a == b)
         if op == "Ne":
             return int(a != b)
+        if op in ("Div", "Rem"):
+            if b == 0:
+                raise Unknown("division by zero")
+            q = abs(a) // abs(b)
+            q = q if (a >= 0) == (b >= 0) else -q        # Rust truncates toward zero
+            return q if op == "Div" else a - q * b
         if op == "BitAnd":
             return a & b
         if op == "BitOr":
